@@ -343,7 +343,9 @@ def check(prop, tier, only=None, verbose=False):
         wall_s=round(wall, 2), violations=len(replay_paths),
     )
     os.makedirs(os.path.join(VERIF, "evidence"), exist_ok=True)
-    if not only:
+    scratch = os.path.realpath(runner.nfc_src()) != os.path.realpath("/repo/src")
+    if not only and not scratch:
+        # (runs against a scratch copy via NFC_SRC never overwrite the evidence)
         with open(os.path.join(VERIF, "evidence", prop + ".json"), "w") as f:
             json.dump(ev, f, indent=1, sort_keys=True)
     log("summary %s: paths=%d decisions=%d obligations=%d discharged=%d "
